@@ -20,12 +20,16 @@
        implementation records on every run) emit only add-mark / remove-mark steps over ranges inside [from, to], so
        however many of the planned steps get applied, the operation changes nothing but marks of tokens inside its
        range (C13_add_mark_changes_only_marks_in_range, C13_remove_mark_changes_only_marks_in_range).
+       And the add_mark plan reaches what it should (C13_add_mark_plan_covers, C13_add_mark_plan_removes_displaced): every
+       overlapping inline descendant lacking the mark under an allowing parent lies, within the range, inside one planned
+       AddMark step, and each mark add_to_set would displace has a planned RemoveMark step over the same part.
    WHICH marks a whole operation leaves, set_block_type / set_node_markup are evaluated per case by Corr.C13 in Coq
    on the implementation's output. *)
-From Coq Require Import List Arith Bool.
+From Coq Require Import List Arith Bool NArith.
 From PM Require Import Model.Data Model.Mark Model.Tree Model.Resolve Model.Step Spec.Tokens
   Proofs.ReplaceValid Proofs.TokenBasics Proofs.ReplaceTokens Proofs.SliceShape Proofs.TokenLaws
-  Proofs.NodeSteps Proofs.MarkSteps Proofs.MarkPointwise Proofs.Retype Model.MarkOps Proofs.MarkOpsProofs.
+  Proofs.NodeSteps Proofs.MarkSteps Proofs.MarkPointwise Proofs.Retype Model.MarkOps Proofs.MarkOpsProofs
+  Proofs.DataProofs Proofs.StepSafe Proofs.Traversal Proofs.AddMarkCovers.
 Import ListNotations.
 Local Open Scope nat_scope.
 
@@ -124,6 +128,53 @@ Proof.
     split; [vm_compute; reflexivity|]. eexists. split; [vm_compute; reflexivity|].
     split; [vm_compute; reflexivity|]. eexists. split; [vm_compute; reflexivity|]. reflexivity.
   - discriminate.
+Qed.
+
+(* ... and the plan reaches everything it should: every inline descendant (p's i-th child c, at absolute position q - [Sub],
+   Proofs/Traversal.v) that overlaps [from, to), does not carry the mark and sits in a parent whose type allows it has its
+   part of the range, [max q from, min (q + size) to), inside ONE planned AddMark step of that mark; and every mark of such a
+   node that Mark.add_to_set would displace has a planned RemoveMark step (of an equal mark) over the same part.  Together
+   with C13_mark_steps_run_pointwise this says which tokens the operation re-marks.  (The walk itself is characterised by
+   C09_nodes_between_exact.) *)
+Theorem C13_add_mark_plan_covers : forall s doc from to mk sts,
+  leaves_empty s doc -> from <= to -> to <= frag_size s (node_content doc) ->
+  plan_add_mark s doc from to mk = Ok sts ->
+  forall p i c q, Sub s doc p i c q -> q < to -> from < q + node_size s c -> 0 < node_size s c ->
+    node_is_inline s c = true -> is_in_set mk (node_marks c) = false ->
+    allows_mark_type s (node_ty s p) (m_ty mk) = true ->
+    exists f t, In (SAddMark f t mk) sts /\ f <= Nat.max q from /\ Nat.min (q + node_size s c) to <= t.
+Proof. exact plan_add_mark_covers. Qed.
+Print Assumptions C13_add_mark_plan_covers.
+
+Theorem C13_add_mark_plan_removes_displaced : forall s doc from to mk sts,
+  leaves_empty s doc -> from <= to -> to <= frag_size s (node_content doc) ->
+  plan_add_mark s doc from to mk = Ok sts ->
+  forall p i c q, Sub s doc p i c q -> q < to -> from < q + node_size s c -> 0 < node_size s c ->
+    node_is_inline s c = true -> is_in_set mk (node_marks c) = false ->
+    allows_mark_type s (node_ty s p) (m_ty mk) = true ->
+    forall x, In x (node_marks c) -> is_in_set x (add_to_set s mk (node_marks c)) = false ->
+    exists f t m0, In (SRemoveMark f t m0) sts /\ mark_eqb m0 x = true /\
+                   f <= Nat.max q from /\ Nat.min (q + node_size s c) to <= t.
+Proof.
+  intros s doc from to mk sts Hle Hft Hto Hp p i c q HS H1 H2 H3 Hi Hm Hal x Hx Hn.
+  exact (plan_add_mark_removes_displaced s doc from to mk sts Hle Hft Hto Hp p i c q HS H1 H2 H3 Hi Hm Hal x Hx Hn (mark_eqb_refl x)).
+Qed.
+Print Assumptions C13_add_mark_plan_removes_displaced.
+
+(* in the example above: the text "cd" of the blockquote's first paragraph (child 0 of child 0 of child 1, at position 6)
+   is covered by the planned step over 6..8 *)
+Example C13_add_mark_plan_covers_example :
+  let s := Properties.C01.ex_schema in let doc := Properties.C01.ex_doc in
+  let bq := Elem 2%nat [] [] [Properties.C01.ex_p [99%N; 100%N]; Properties.C01.ex_p [101%N; 102%N]] in
+  leaves_empty s doc /\ Sub s doc (Properties.C01.ex_p [99%N; 100%N]) 0 (Text [99%N; 100%N] []) 6.
+Proof.
+  cbv zeta. split; [apply leaves_empty_b_spec; vm_compute; reflexivity|].
+  change 6 with (5 + 1 + frag_size Properties.C01.ex_schema (firstn 0 (node_content (Properties.C01.ex_p [99%N; 100%N])))).
+  eapply (Sub_in _ _ (Elem 2%nat [] [] [Properties.C01.ex_p [99%N; 100%N]; Properties.C01.ex_p [101%N; 102%N]]) 0); [|reflexivity].
+  change 5 with (4 + 1 + frag_size Properties.C01.ex_schema (firstn 0 [Properties.C01.ex_p [99%N; 100%N]; Properties.C01.ex_p [101%N; 102%N]])).
+  eapply (Sub_in _ _ Properties.C01.ex_doc 1); [|reflexivity].
+  change 4 with (frag_size Properties.C01.ex_schema (firstn 1 (node_content Properties.C01.ex_doc))).
+  apply Sub_top. reflexivity.
 Qed.
 
 (* ... and WHAT it does to the marks, token by token: token i of the result is token i of the starting document re-marked,
